@@ -136,3 +136,34 @@ REG.contract(
     note="binary search (with the in-order fast path) over strictly increasing keys: returns the index of the key or of its "
          "least successor; elements are abstracted by their keys, keys by integers (a strict total order, cf. C06)",
 )
+
+# ----------------------------------------------------------------------------- resolver time budget (C16)
+
+
+def _mk_resolver(f):
+    import dns.resolver
+
+    r = dns.resolver.Resolver(configure=False)
+    r.lifetime, r.timeout = f["lifetime"], f["timeout"]
+    return r
+
+
+REG.declare_class("dns.resolver.BaseResolver", make=_mk_resolver, inv="self.lifetime > 0 and self.timeout > 0",
+                  lifetime=T.real, timeout=T.real)
+
+_L = "(self.lifetime if lifetime is None else lifetime)"
+_D = "(time_1 - start)"
+REG.contract(
+    "dns.resolver.BaseResolver._compute_timeout",
+    params={"self": T.obj("dns.resolver.BaseResolver"), "start": T.real, "lifetime": T.opt(T.real), "errors": T.const(None)},
+    raises=[("dns.resolver.LifetimeTimeout", f"{_D} < -1 or (0 if {_D} < 0 else {_D}) >= {_L}")],
+    returns=T.real,
+    ensures=[
+        f"result == (({_L} - (0 if {_D} < 0 else {_D})) if ({_L} - (0 if {_D} < 0 else {_D})) < self.timeout else self.timeout)",
+        "result > 0",
+        f"result <= {_L} - (0 if {_D} < 0 else {_D})",
+    ],
+    props=["C16"],
+    note="the per-query timeout is min(remaining lifetime, timeout) and strictly positive; LifetimeTimeout exactly when the "
+         "lifetime is used up or the clock went back by more than a second (reals; time_1 is the clock reading)",
+)
